@@ -126,6 +126,27 @@ class Escape:
     def _body(self, fi, st):
         return self._block(fi.node.body, st)
 
+    def _file_vars(self, fi):
+        """names bound to an open file object in fi -> the opening call."""
+        key = ("fv", id(fi.node))
+        if key in self.memo:
+            return self.memo[key]
+        out = {}
+        for n in ast.walk(fi.node):
+            pairs = []
+            if isinstance(n, ast.With):
+                pairs = [(i.optional_vars, i.context_expr) for i in n.items
+                         if i.optional_vars is not None]
+            elif isinstance(n, ast.Assign) and len(n.targets) == 1:
+                pairs = [(n.targets[0], n.value)]
+            for tgt, val in pairs:
+                if isinstance(tgt, ast.Name) and isinstance(val, ast.Call):
+                    fn = (dotted(val.func) or "").split(".")[-1]
+                    if fn in ("open", "open_binary", "open_text"):
+                        out[tgt.id] = val
+        self.memo[key] = out
+        return out
+
     def _block(self, stmts, st):
         out = set()
         for s in stmts:
@@ -148,7 +169,10 @@ class Escape:
                 out |= self._block(s.orelse, st)
             return out
         if isinstance(s, (ast.For, ast.AsyncFor)):
-            return (self._expr(s.iter, st) | self._block(s.body, st)
+            extra = set()
+            if isinstance(s.iter, ast.Name) and s.iter.id in self._file_vars(st.fi):
+                extra = self._read_errors(self._file_vars(st.fi)[s.iter.id], st, s)
+            return (self._expr(s.iter, st) | extra | self._block(s.body, st)
                     | self._block(s.orelse, st))
         if isinstance(s, ast.While):
             return (self._expr(s.test, st) | self._block(s.body, st)
@@ -405,6 +429,14 @@ class Escape:
             out |= self._call(c, st)
         return out
 
+    def _read_errors(self, open_call, st, node):
+        """read(2) on a /proc file can fail after a successful open (ESRCH when
+        the process went away, EACCES for protected files)."""
+        org = self._origin(open_call, st)
+        site = self._site(st.fi, node)
+        return {Exc(c, org, site) for c in ("ProcessLookupError", "PermissionError",
+                                            "OSError")}
+
     def _site(self, fi, node):
         return f"{fi.file}:{getattr(node, 'lineno', 0)}:{fi.qual}"
 
@@ -444,6 +476,10 @@ class Escape:
         fn = dotted(c.func)
         if fn == "fun" and st.fun_raises is not None:
             return set(st.fun_raises)
+        if isinstance(c.func, ast.Attribute) and isinstance(c.func.value, ast.Name) \
+                and c.func.attr in ("read", "readline", "readlines") \
+                and c.func.value.id in self._file_vars(fi):
+            return self._read_errors(self._file_vars(fi)[c.func.value.id], st, c)
         tg = self.repo.resolve_call(c, fi, self.plat)
         # self.X inside a decorator's wrapper refers to the module's Process
         if tg and tg[0][0] == "unknown" and isinstance(c.func, ast.Attribute) \
